@@ -1,11 +1,13 @@
 SPECIFICATION Spec
 CONSTANTS
-  N = 5
+  N = 3
   Term <- TermFn
   RecvFilter = TRUE
   ApplyFilter = "le"
   SyncedAfter = TRUE
   SnapHasSynced = TRUE
-  MaxLog = 8
+  Pipelined = TRUE
+  MaxInstall = 1
+  MaxLog = 5
   MaxRestart = 2
 INVARIANTS RemoteExactlyOnce SyncedAfterEffect SyncedExact SyncedMonotone SyncedSurvivesRestart
